@@ -228,6 +228,17 @@ BadFields == {<<h, mi, s>> : h \in {24, 25, 99}, mi \in {0, 59}, s \in {0, 59}}
              \cup {<<23, 59, 60>>, <<23, 59, 61>>, <<23, 60, 0>>, <<23, 60, 59>>, <<0, 0, 60>>, <<12, 30, 60>>, <<0, 60, 0>>,
                    <<12, 30, 61>>, <<23, 59, 99>>}
 
+\* 'hh:mm:ss.f...' with MORE than nine fractional digits: not a form the driver documents ("HH:MM:SS[.mmmuuunnn]"), and
+\* not losslessly representable (nanoseconds).  The time such a string spells is hh:mm:ss plus a fraction below one
+\* second, i.e. within the day whenever hh:mm:ss is.  Fractions are given as digit sequences (their value as an integer
+\* does not fit TLC's numbers): all nines, 0.1 ns, exactly 0.1 s written with ten digits, twelve mixed digits.
+LongFractions == {[k \in 1..10 |-> 9], [k \in 1..10 |-> IF k = 10 THEN 1 ELSE 0], [k \in 1..10 |-> IF k = 1 THEN 1 ELSE 0],
+                  <<1, 3, 8, 3, 3, 6, 8, 4, 5, 8, 9, 1>>, [k \in 1..11 |-> IF k = 11 THEN 0 ELSE 9]}
+LongFields == {<<23, 59, 59>>, <<23, 59, 0>>, <<0, 0, 0>>, <<12, 30, 0>>, <<23, 58, 59>>}
+LongText(f, ds) == Two(f[1]) \o <<Colon>> \o Two(f[2]) \o <<Colon>> \o Two(f[3]) \o <<Dot>> \o [k \in 1..Len(ds) |-> Dg(ds[k])]
+WellFormedLongTime(t) == /\ Len(t) >= 19 /\ t[3] = Colon /\ t[6] = Colon /\ t[9] = Dot
+                         /\ \A i \in 1..Len(t) : i \in {3, 6, 9} \/ IsDg(t[i])
+
 \* ---- instants for time-UUIDs
 Inst(t, sod, us) == [days |-> DaysFromCivil(t[1], t[2], t[3]), sod |-> sod, us |-> us]
 UuidDates == IF Rich THEN {<<1582, 10, 15>>, <<1582, 10, 16>>, <<1583, 1, 1>>, <<1600, 2, 29>>, <<1684, 7, 27>>, <<1684, 7, 29>>,
@@ -320,6 +331,15 @@ TimeBadStringCase == /\ fam = "time" /\ ph = "seed" /\ c.seed = 0
                           /\ Emit([kind |-> "string", text |-> TimeText(f[1], f[2], f[3], ns, k), fields |-> <<f[1], f[2], f[3], ns>>],
                                   [expect |-> BadStringExpect(f[1], f[2], f[3]), why |-> "fields-beyond-the-day"])
 
+\* what the statement says about such a string: it need not be accepted, and no particular value is promised (both
+\* recorded, not judged) - but "only accepts times within one day": if it is accepted the result is a time of the day.
+\* nine |-> the value a parser keeping the first nine digits gives (for the record only)
+TimeLongFractionCase == /\ fam = "time" /\ ph = "seed" /\ c.seed = 0
+                        /\ \E f \in LongFields, ds \in LongFractions :
+                             Emit([kind |-> "longfraction", text |-> LongText(f, ds), fields |-> f, digits |-> Len(ds)],
+                                  [expect |-> "within", why |-> "fraction-of-more-than-nine-digits",
+                                   nine |-> [secs |-> SecsOf(f[1], f[2], f[3]), ns |-> DigitsVal([k \in 1..9 |-> Dg(ds[k])])]])
+
 UuidCase == /\ fam = "uuid" /\ ph = "seed"
             /\ \E i \in Instants : /\ Mine(i.days + i.us + i.sod)
                                    /\ LET ts == Ts8(i, 0) IN
@@ -337,7 +357,7 @@ PairCase == /\ fam = "pair" /\ ph = "seed"
                     Emit([a |-> [inst |-> i, node |-> n1, cs |-> s1], b |-> [inst |-> j, node |-> n2, cs |-> s2]],
                          [ua |-> u, ub |-> v, rel |-> Rel(u, v), plain |-> IF PlainLess(u, v) THEN "lt" ELSE IF PlainLess(v, u) THEN "gt" ELSE "eq"])
 
-Next == DateCivilCase \/ DateRawCase \/ DateBlockCase \/ TimeValueCase \/ TimeBadIntCase \/ TimeBadStringCase
+Next == DateCivilCase \/ DateRawCase \/ DateBlockCase \/ TimeValueCase \/ TimeBadIntCase \/ TimeBadStringCase \/ TimeLongFractionCase
         \/ UuidCase \/ Uuid100Case \/ PairCase
 Spec == Init /\ [][Next]_vars
 
@@ -386,6 +406,16 @@ TimeRejectJustified ==
         ELSE /\ WellFormedTime(c.text) /\ ParseTimeText(c.text) = c.fields
              /\ Leq(Mul(NatLE(DaySecs), NatLE(Giga)), TotalNs(SecsOf(c.fields[1], c.fields[2], c.fields[3]), c.fields[4]))
 
+\* a string with a longer fraction spells a time within the day (so the statement does not demand its refusal), and is not
+\* one of the documented forms of any value
+TimeLongFraction ==
+    Case("time") /\ x.expect = "within" =>
+        /\ WellFormedLongTime(c.text) /\ ~WellFormedTime(c.text) /\ c.digits > 9 /\ Len(c.text) = 9 + c.digits
+        /\ c.fields[1] \in 0..23 /\ c.fields[2] \in 0..59 /\ c.fields[3] \in 0..59
+        /\ SecsOf(c.fields[1], c.fields[2], c.fields[3]) < DaySecs
+        /\ TimeInDay(FALSE, x.nine.secs, x.nine.ns)
+        /\ SubSeq(c.text, 1, 18) = TimeText(c.fields[1], c.fields[2], c.fields[3], x.nine.ns, 9)
+
 \* ---- C34 (c): layout, decode, bounds in Cassandra's order
 UuidLayout ==
     Case("uuid") =>
@@ -414,7 +444,7 @@ OrderSane ==
         /\ (x.rel = "lt" <=> Rel(x.ub, x.ua) = "gt")
 
 TypeOK == /\ fam \in Families /\ ph \in {"seed", "case"}
-          /\ Case("time") => x.expect \in {"ok", "reject", "open"}
+          /\ Case("time") => x.expect \in {"ok", "reject", "open", "within"}
 
 -----------------------------------------------------------------------------
 \* ================================================================ vacuity witnesses (TLC must VIOLATE each)
@@ -430,6 +460,7 @@ Witness_ShortForms    == ~(Case("time") /\ x.expect = "ok" /\ x.hmsn = <<12, 0, 
 Witness_TimeNegative  == ~(Case("time") /\ x.expect = "reject" /\ c.kind = "int" /\ c.neg /\ c.secs = 0 /\ c.ns = 1)
 Witness_TimeString60  == ~(Case("time") /\ x.expect = "reject" /\ c.kind = "string" /\ c.fields = <<23, 59, 60, 0>> /\ Len(c.text) = 8)
 Witness_TimeOpen      == ~(Case("time") /\ x.expect = "open" /\ c.fields = <<0, 0, 60, 0>> /\ Len(c.text) = 8)
+Witness_LongFraction  == ~(Case("time") /\ x.expect = "within" /\ c.fields = <<23, 59, 59>> /\ c.digits = 10 /\ x.nine.ns = 999999999)
 Witness_TimeLowWraps  == ~(Case("uuid") /\ SubSeq(x.uuid, 1, 4) = <<0, 0, 0, 4>> /\ x.uuid[6] = 1 /\ c.node = Rep(0) /\ c.cs = 0)
 Witness_Pre1970       == ~(Case("uuid") /\ c.inst = Inst(<<1969, 12, 31>>, 86399, 999999) /\ c.node = Rep(255) /\ c.cs = 16383)
 Witness_SignBitNode   == ~(Case("uuid") /\ c.inst = E0 /\ c.node = Rep(255) /\ c.cs = 16383 /\ PlainLess(x.max, x.uuid) /\ CassLess(x.uuid, x.max))
